@@ -114,7 +114,12 @@ def _paths(ctx, S):
             "../outside/current", "/../outside/current", "linkout/current", "data/../../outside/dangling", "linkout/dangling",
             # true absolute paths outside the root whose TAIL names something that exists inside the table
             os.path.join(S, "outside", "data", "x"), "/nonexistent/elsewhere/data/x", os.path.join(S, "root2", "data", "x"),
-            "/mnt/backup/metadata/" + "version-hint.text", os.path.join(S, "outside", "metadata", "manifests")]
+            "/mnt/backup/metadata/" + "version-hint.text", os.path.join(S, "outside", "metadata", "manifests"),
+            # '<symlink>/..' spellings: for the operating system the link is followed FIRST (these name S/data/x, S/x: outside)
+            "linkout/../data/x", "/linkout/../data/x", "linkout/../x", "data/../linkout/../data/x", "linkout/d/../../data/x", "linkout/./../metadata",
+            # true absolute paths that are LEXICALLY inside the root but pass through a symlink leading out
+            os.path.join(S, "root", "linkout", "sentinel.txt"), os.path.join(S, "root", "linkout", "x.parquet"), os.path.join(S, "root", "data", "flink"),
+            os.path.join(S, "root", "linkout", "d", "deep.txt"), os.path.join(S, "rootlink", "linkout", "sentinel.txt")]
     seen, res = set(), []
     for p in out:
         if p not in seen:
@@ -199,6 +204,81 @@ def _judge(rep, S, root_real, ep, p, via, fp_before, outcome, exc, check_fp=True
     return fp_before
 
 
+def _escaping(rep, S, root_real, ep, p, via, outcome, val):
+    """the property's last clause: a path that FOR THE OPERATING SYSTEM names something outside the root (symlinks followed in
+    order, then '..') must be rejected — not answered as if it named something else. Decided by realpath, independently of the
+    library's resolver. Table-relative spellings only (absolute ones have their own clause above)."""
+    if outcome != "ok" or "\x00" in p or ep in ("append_files", "create_lock", "makedirs"):
+        return
+    rel = p.lstrip("/")
+    if os.path.isabs(p) and (p.startswith(S + os.sep) or p.startswith("/etc") or p.startswith("/mnt") or p.startswith("/nonexistent")):
+        return
+    rp = os.path.realpath(os.path.join(root_real, rel))
+    if rp == root_real or rp.startswith(root_real + os.sep):
+        return
+    if ep == "exists" and val is False:
+        return
+    if ep == "list_files" and val == []:
+        return
+    if ep == "validate_file_exists" and val is False:
+        return
+    rep.violate(f"C17:escaping-path-accepted:{ep}", f"{ep}({p!r}) via {via}: for the operating system this path names {os.path.relpath(rp, S)!r}, outside the root, "
+                f"yet the call succeeded ({str(val)[:50]!r}) instead of being rejected", {"kind": "path", "entry_point": ep, "path": p, "root_via": via})
+
+
+def _s3_keys(ctx, rep):
+    """S3 backend: two tables share a bucket; every request the REAL backend makes for table 'wh/orders' must name a key (or list
+    prefix) under 'wh/orders/', nothing outside may change, no outside content may be returned — for an exhaustive grammar of
+    table-relative spellings"""
+    from .. import fakes3
+    fake = fakes3.FakeS3()
+    be = fakes3.make_backend("wh/orders", fake=fake)
+    outside = {"wh/customers/data/x": b"SENTINEL-C", "wh/customers/x": b"SENTINEL-D", "wh/x": b"SENTINEL-E", "x": b"SENTINEL-F",
+               "other/data/x": b"SENTINEL-G", "wh/orders2/data/x": b"SENTINEL-H", "data/x": b"SENTINEL-I"}
+    inside = {"wh/orders/data/x": b"inside", "wh/orders/metadata/version-hint.text": b"1"}
+    comps = ["..", ".", "", "data", "x", "customers", "wh", "orders"]
+    paths = []
+    for n in range(0, 5 if ctx.thorough else 4):
+        for combo in itertools.product(comps, repeat=n):
+            rel = "/".join(combo)
+            paths += [rel, "/" + rel]
+    paths = list(dict.fromkeys(paths))
+    seen = []
+    fake.hook = lambda phase, op, key, kw: seen.append((op, key)) if phase == "before" else None
+    calls = {
+        "read_file": lambda p: be.read_file(p), "open_file": lambda p: be.open_file(p).read(), "exists": lambda p: be.exists(p),
+        "get_size": lambda p: be.get_size(p), "list_files": lambda p: be.list_files(p), "get_modified_time": lambda p: be.get_modified_time(p),
+        "read_file_with_etag": lambda p: be.read_file_with_etag(p), "open_seekable": lambda p: be.open_seekable(p).read(),
+        "write_file": lambda p: be.write_file(p, b"W"), "delete_file": lambda p: be.delete_file(p),
+        "write_file_cas": lambda p: be.write_file_cas(p, b"W", None),
+    }
+    with fakes3.NoSleep():
+        for name, fn in calls.items():
+            if not hasattr(be, name):
+                continue
+            for p in paths:
+                fake.objects.clear()
+                for k_, v_ in {**outside, **inside}.items():
+                    fake._put(k_, v_)
+                del seen[:]
+                try:
+                    r = fn(p)
+                    outcome = "ok"
+                except Exception as e:      # noqa: BLE001
+                    r, outcome = None, "raise:" + type(e).__name__
+                rep.evaluations += 1
+                rep.distribution[f"s3:{name}:{outcome.split(':')[0]}"] += 1
+                if outcome == "ok":
+                    rep.nontrivial(["c17-s3", name, p])
+                case = {"kind": "s3-path", "entry_point": name, "path": p, "prefix": "wh/orders"}
+                bad = [(op, k_) for op, k_ in seen if isinstance(k_, str) and not (k_.startswith("wh/orders/") or k_ == "wh/orders")]
+                changed = [k_ for k_, v_ in outside.items() if k_ not in fake.objects or fake.objects[k_].data != v_]
+                leaked = isinstance(r, (bytes, tuple, list)) and b"SENTINEL" in (r if isinstance(r, bytes) else repr(r).encode())
+                if bad or changed or leaked:
+                    rep.violate(f"C17:{'write' if name in ('write_file', 'delete_file', 'write_file_cas') else 'read'}-outside-root:s3:{name}",
+                                f"S3 {name}({p!r}) for the table under 'wh/orders': requests {bad[:2]}, objects changed {changed[:2]}, outside content returned: {leaked} ({outcome})", case)
+
+
 def _oracle(ctx, rep, base):
     _install()
     S = _layout(base)
@@ -229,6 +309,7 @@ def _oracle(ctx, rep, base):
                     if first not in (["data"], ["metadata"]) and not (rp_ == root_real or rp_.startswith(root_real + os.sep)):
                         rep.violate(f"C17:outside-path-silently-resolved:{ep}", f"{ep}({p!r}) via {via}: a true absolute path outside the root was accepted "
                                     f"({str(val)[:60]!r}) instead of rejected", {"kind": "path", "entry_point": ep, "path": p, "root_via": via})
+                _escaping(rep, S, root_real, ep, p, via, outcome, val)
                 fp = _judge(rep, S, root_real, ep, p, via, fp, outcome, val, check_fp=False)
             fp2 = _fingerprint(S)
             if fp2 != fp:
@@ -251,6 +332,7 @@ def _oracle(ctx, rep, base):
                 rep.distribution[f"{ep}:{outcome.split(':')[0]}"] += 1
                 if outcome == "ok":
                     rep.nontrivial(["c17", ep, p, via])
+                _escaping(rep, S, root_real, ep, p, via, outcome, None)
                 fp = _judge(rep, S, root_real, ep, p, via, fp, outcome, None)
                 # keep the inside of the root usable for the next call
                 for rel in ("data/x",):
@@ -462,6 +544,7 @@ def run(ctx, model_ok):
         _correspond(ctx, rep, base, model_ok)
         _oracle(ctx, rep, base)
         _stateful(ctx, rep, base)
+        _s3_keys(ctx, rep)
         rep.exhaustive = True
     finally:
         _AUDIT["on"] = False
